@@ -558,6 +558,48 @@ pub fn run(tier: Tier) -> i32 {
                     }
                 }
             }
+            // tilde results are literal: `~` followed by nothing, a slash or a path with wildcards,
+            // under HOME values that contain pattern characters, with and without a trailing
+            // slash (which merges with a following one)
+            for home in ["sub", "sub/", "s*b", "s*b/", "*", "*/", "su?/", "[s]ub/", "?", "s*", ".", "./", "sub/s*/", "\\*/"] {
+                env.variables.get_or_new("HOME", Scope::Global).assign(home, None).unwrap();
+                for rest in ["", "/", "/a", "/*", "/.a", "/?", "/s*/a", "/sub2/*"] {
+                    let text = format!("~{rest}");
+                    let merged = if rest.starts_with('/') { home.strip_suffix('/').unwrap_or(home) } else { home };
+                    let pcs: Vec<PC> = merged.chars().map(|c| (c, true)).chain(rest.chars().map(|c| (c, false))).collect();
+                    let field: String = pcs.iter().map(|p| p.0).collect();
+                    if field.starts_with('/') || field.is_empty() {
+                        continue;
+                    }
+                    let exp = match refglob(&tree, &pcs, cwd, noglob) {
+                        Ref::Paths(p) => p,
+                        Ref::Unspecified => {
+                            unspec.fetch_add(1, Relaxed);
+                            continue;
+                        }
+                    };
+                    let Ok(mut word) = Word::from_str(&text) else { continue };
+                    word.parse_tilde_front();
+                    evals.fetch_add(1, Relaxed);
+                    let got = catch(|| expand_words(&mut env, std::iter::once(&word)).now_or_never());
+                    let got: Result<Vec<String>, String> = match got {
+                        Ok(Some(Ok((f, _)))) => Ok(f.into_iter().map(|f| f.value).collect()),
+                        Ok(Some(Err(e))) => Err(format!("error {:?}", e.cause)),
+                        Ok(None) => Err("blocked".into()),
+                        Err(p) => Err(format!("panic: {p}")),
+                    };
+                    if exp.len() != 1 || exp[0] != field {
+                        nontrivial.fetch_add(1, Relaxed);
+                    }
+                    if got.as_ref() != Ok(&exp) {
+                        ctx.violation(
+                            "c05:tilde-result",
+                            &format!("word {text} with HOME={home:?} in tree {:?} cwd /t/{cwd} noglob={noglob}: got {got:?}, expected {exp:?}", tree.keys().collect::<Vec<_>>()),
+                            json!({"word": text, "HOME": home, "tree": format!("{ents:?}"), "cwd": cwd, "noglob": noglob, "expected": exp}),
+                        );
+                    }
+                }
+            }
             // no descriptor left open by directory scans
             let fds = env.system.clone();
             let _ = fds;
